@@ -470,7 +470,7 @@ class ProvRecord(object):
             return False
         if self.get_type() != other.get_type():
             return False
-        if self._identifier and not (self._identifier == other._identifier):
+        if self._identifier != other._identifier:
             return False
 
         return set(self.attributes) == set(other.attributes)
